@@ -1,4 +1,5 @@
 import Lemmas.Linear
+import Lemmas.Compose
 /-!
 # C01 — The output of a request is independent of the execution strategy
 
@@ -88,6 +89,16 @@ theorem segmented_eq_linear (w : World) (md : Nat) (ns : List Nat) (b : Nat) (st
   unfold runSegments
   rw [segFold_eq w md ns ⟨st, [], none⟩ b rfl]
   simp only [glue, List.nil_append]
+
+/-- **"split into parallel segment jobs of any segment size"**, with the boundaries the engine really
+uses (composition with C13): for every segment size `k`, first block `init` and end block `end_`, the
+segments handed out by the real `block.Segmenter` (`Segmenter.segments`: `Range(idx)` for
+`idx = FirstIndex() … LastIndex()`, the function the C13 correspondence ties to the Go code), executed
+in index order from `init`, are the linear run of the blocks `[init, end_)`. -/
+theorem segmenter_jobs_eq_linear (w : World) (md : Nat) (s : Segmenter) (hk : 0 < s.interval)
+    (hlt : s.init < s.end_) (st : LState) :
+    runSegments w md (s.segments.map Range.size) s.init st = runBlocks w md (s.end_ - s.init) s.init st := by
+  rw [segmented_eq_linear, Segmenter.segments_sizes s hk hlt]
 
 /-- The fold `runSegments` unfolded once — how exactly a failure stops a segmented run: if the first
 segment fails the result is that segment's result; otherwise the remaining segments run from the boundary
@@ -263,5 +274,10 @@ example : runBlocksC demoW 10 (cacheOf (runBlocks demoW 10 5 0 ⟨[]⟩).blocks 
 example : linearSpecC demoW 10 (cacheOf (linearRun (usedMods demoW nM2) 10 0 7).blocks selStore) nM2 2 5 =
     linearSpec demoW 10 nM2 2 5 :=
   linearSpecC_earlier_request demoW 10 (by decide) nM2 2 5 0 7 selStore
+
+-- the real segmenter's cut of [1, 6) with segments of 2 blocks: jobs of 1, 2 and 2 blocks
+example : ((⟨2, 1, 6⟩ : Segmenter).segments.map Range.size) = [1, 2, 2] := by decide
+example : runSegments demoW 10 ((⟨2, 1, 6⟩ : Segmenter).segments.map Range.size) 1 ⟨[]⟩ = runBlocks demoW 10 5 1 ⟨[]⟩ :=
+  segmenter_jobs_eq_linear demoW 10 ⟨2, 1, 6⟩ (by decide) (by decide) ⟨[]⟩
 
 end SV.C01
